@@ -2,8 +2,8 @@
 import json, os
 from ..modules import REGS, PASSFACTS, TEXTFLAGS, TEXTFLAGH, ASMBP
 
-FILES = ["c15.go", "c15gen.go", "gen_passfacts.go"]
-PROPS = ["AvoVerif.Props.C15", "AvoVerif.Props.C15Tables"]
+FILES = ["c15.go", "c15gen.go", "c15forms.go", "gen_passfacts.go"]
+PROPS = ["AvoVerif.Props.C15", "AvoVerif.Props.C15Arch", "AvoVerif.Props.C15Tables"]
 
 
 def floors(ctx, name, spec):
@@ -23,6 +23,16 @@ def floors(ctx, name, spec):
             ctx.obligation_failures.append((f"{name}: unexplained refusals", f"{tag}: {st.get(tag + ':refusal_unexplained_by_pass_sequence', 0)} of {files} files refused by pass.Compile although neither the NOFRAME bits nor the explicit pass sequence explain it"))
 
 
+def ceilings(ctx, name, spec):
+    """Upper bounds on what a stream may DROP (crashed probes, shapes the table refuses to build, …)."""
+    st = ctx.coverage.get("input_distribution", {}).get(name)
+    if st is None:
+        return
+    for key, hi in spec.items():
+        if st.get(key, 0) > hi:
+            ctx.obligation_failures.append((f"{name}: drop ceiling", f"{key} = {st.get(key, 0)} > {hi}"))
+
+
 def run(ctx):
     if not ctx.build_harness(FILES):
         return
@@ -38,7 +48,8 @@ def run(ctx):
     if ctx.tier == "thorough":
         ctx.leanchecker(PROPS)
     # non-trivial = the function writes some view of hardware BP (id 327936 = GP number 5)
-    nt = lambda req, resp: " 327936 " in req or (req.startswith("accept-bp-exec ") and req.split()[4] == "1")
+    nt = lambda req, resp: " 327936 " in req or (req.startswith("accept-bp-exec ") and req.split()[4] == "1") or (
+        req.startswith("accept-bp-form ") and req.split()[5] == "1")
     ctx.run_corpus("c15", nontrivial=nt)
     if ctx.replay:
         ctx.differential("c15", 0, nontrivial=nt)
@@ -46,11 +57,15 @@ def run(ctx):
     quick = ctx.tier == "quick"
     n = 3000 if quick else 150000
     nexec = 24 if quick else 400
-    ctx.differential("c15", n, extra=["-exec", str(nexec), "-execdir", "exec"], nontrivial=nt)
+    # -forms: the form sweep (harness/c15forms.go): EVERY row of the form table with a general-purpose register or small
+    # memory-source position, instantiated with the views of BP; all executable shapes are executed in both tiers
+    ctx.differential("c15", n, extra=["-exec", str(nexec), "-execdir", "exec", "-forms"], nontrivial=nt)
     # floors for n = 3000 (about a third of what seeds 1..12 give); they scale with n
     k = n // 3000
     floors(ctx, "c15", {
-        "ensure_requests": 500 * k, "ensure_clobbered": 150 * k, "allocator_chose_bp": 40 * k, "ensure_frame_ge_2^31": 8 * k,
+        "ensure_requests": 500 * k, "ensure_clobbered": 150 * k, "allocator_chose_bp": 40 * k, "author_named_bp": 150 * k, "author_reads_bp": 40 * k,
+        "bp_onto_itself:size4": 30 * k, "allocator_made_bp_self_copy": 20 * k, "allocator_made_bp_self_copy_only_write": 10 * k,
+        "compileN:allocator_made_bp_self_copy": 10 * k, "compileN:allocator_made_bp_self_copy_only_write": 5 * k, "ensure_frame_ge_2^31": 8 * k,
         "compile1:judged_functions": 80 * k, "compile1:judged_clobbering": 25 * k, "compile1:judged_text_lines": 80 * k,
         "compile1:judged_text_lines_with_args": 20 * k, "compile1:judged_refusals": 5 * k, "compile1:allocator_chose_bp": 5 * k,
         "compileN:judged_functions": 150 * k, "compileN:judged_clobbering": 50 * k, "compileN:judged_multi_function_files": 50 * k,
@@ -58,6 +73,28 @@ def run(ctx):
         "compile1:files:ctx": 30 * k, "compileN:files:ctx": 30 * k,
         "exec_functions": nexec, "exec_clobbering_bp": nexec // 3, "exec:judged_functions": nexec, "exec_control_detected": 1,
     })
+    # the form sweep does not scale with n: the whole table on every run (numbers of the pinned table: 1842 shapes, 1816
+    # measured, 1015 measured to change BP; floors at roughly two thirds)
+    floors(ctx, "c15", {
+        "formsweep:shapes": 1200, "formsweep:judged_shapes": 1200, "formsweep:measured_shapes": 1100,
+        "formsweep:class:dst-w": 150, "formsweep:class:dst-rw": 270, "formsweep:class:src": 250, "formsweep:class:self": 150,
+        "formsweep:class:imm0": 80, "formsweep:class:membase": 150, "formsweep:class:membase-dst": 120, "formsweep:class:memindex": 2,
+        "formsweep:view_mask1:dst-rw": 35, "formsweep:view_mask3:dst-rw": 70, "formsweep:view_mask7:dst-rw": 80, "formsweep:view_mask15:dst-rw": 80,
+        "formsweep:view_mask1:dst-w": 12, "formsweep:view_mask3:dst-w": 14, "formsweep:view_mask7:dst-w": 65, "formsweep:view_mask15:dst-w": 60,
+        "formsweep:view_mask7:self": 50, "formsweep:view_mask15:self": 50,
+        "formsweep:measured_changed": 650, "formsweep:measured_changed:self": 100, "formsweep:measured_changed:imm0": 50,
+        "formsweep:measured_changed:membase-dst": 120, "formsweep:measured_changed:dst-w": 150, "formsweep:measured_changed:dst-rw": 240,
+        "formsweep:measured_changed:self:view_mask7": 50, "formsweep:measured_changed:imm0:view_mask7": 25, "formsweep:measured_changed:membase-dst:view_mask7": 40,
+        "formsweep:measured_changed:view_mask1": 60, "formsweep:measured_changed:view_mask3": 120,
+        "formsweep:measured_changed:view_mask7": 250, "formsweep:measured_changed:view_mask15": 180,
+        "formsweep:measured_shapes:src": 250, "formsweep:measured_shapes:membase": 150,
+        "formsweep:accepted": 4000, "formsweep:refused": 1900, "formsweep:frame_forced": 1500,
+        "formsweep:compiled_executed": 1100, "formsweep:compiled_executed_measured_changed": 650,
+        "formsweep:measure_controls_ok": 1, "formsweep:compiled_control_ok": 1,
+        "formsweep:pool_write": 400, "formsweep:pool_write_self": 60, "formsweep:pool_read": 150,
+    })
+    ceilings(ctx, "c15", {"formsweep:error": 0, "formsweep:measure_setup_crashed": 60, "formsweep:compiled_crashed": 20,
+                          "formsweep:probe_print_error": 0, "formsweep:refused_regardless_of_noframe": 60, "formsweep:compiled_build_failed": 0, "formsweep:build_rejected": 40})
     if not quick:
         base = ctx.seed
         for k in (1, 2):
@@ -75,7 +112,11 @@ def run(ctx):
         "(saved_bp_restored), the acceptor's soundness and completeness against the declarative statement OutcomeOK (acceptBP_iff), "
         "the table facts; PROVED NEGATIVE: the property fails for LocalSize in [2^31, 2^32) (bp_wrapped_frame_not_saved, finding "
         "C15-frame-int32); HYPOTHESES of the main theorem C15 (not proved here): BodyOK (the body is stack-balanced and writes nothing "
-        "at or above the top of its frame: C16) and 'a body none of whose declared outputs is a BP register leaves BP alone' (C04); "
+        "at or above the top of its frame: C16) and 'a body none of whose declared outputs is a BP register leaves BP alone' (C04) — "
+        "the latter is PROVED in Props/C15Arch for bodies that are lists of architectural register writes (x86-64 view rules, a 32-bit "
+        "write clears bits 32..63) from the weaker hypothesis Covers (execAll_preserves_bp, C15_arch), with exempt_scan_sound (a scan may "
+        "leave out exactly the instructions that preserve BP architecturally), selfmove_8_16_64_preserves / movl_self_iff and the "
+        "NEGATION at the seeded class: exempting_movl_self_violates (MOVL BP,BP exempted: NOFRAME accepted, 0xc000124ed0 -> 0x124ed0); "
         "MEASURED (not proved): that the installed assembler follows the modelled rule (full grid incl. frames 2^31 and 2^32+8) and that "
         "writes through the BP names are the ones that change BP (kernel-checked against tables regenerated on this run); pass_order is "
         "a fact about the list of passes obtained by evaluating pass.Compile's initialiser, the behaviour of Compile itself is exercised "
@@ -102,10 +143,32 @@ def run(ctx):
         "compiled TOGETHER as one file by pass.Compile, printed with printer.NewGoAsm, built with go build and called through an assembly "
         "trampoline that compares the caller's BP before/after (positive control: a hand-written frameless leaf setting BP must be seen to "
         "change it; the 2^31-frame witness is executed too). Lower bounds on the judged cases of every stream are obligations (sample "
-        "floors). non-trivial = functions that write a view of BP")
+        "floors). FORM SWEEP (harness/c15forms.go, both tiers, the whole table on every run): every row of avo's compiled form table with "
+        "an explicit general-purpose register position (or a small read-only memory source) is instantiated through the real x86 build "
+        "with the matching view of BP (BPB/BP/EBP/RBP) in EACH register position in turn (destination w / rw, source), in ALL positions at "
+        "once (the shapes that look like a no-op: MOVL BP,BP; XCHGL BP,BP; CMOVLEQ BP,BP; ORL BP,BP), with immediates of 0 (ADDL $0,BP), "
+        "with BP as base/index of the memory source (LEAL (BP),BP; MOVQ (BP),BP; reads only: MOVQ (BP),SI) — about 1 840 shapes; PUSH/POP "
+        "are paired with their counterpart. Whether a shape changes BP is MEASURED: the instruction alone in a hand-framed NOSPLIT|NOFRAME "
+        "function (printed by avo's printer, no pass run) is called through the trampoline under three operand/flag set-ups (every "
+        "condition code true in one of them; positive and negative control functions); independently the harness reads the destination "
+        "operands off the row's operand actions by position (not from inst.Outputs). `accept-bp-form`: pass.Compile on the "
+        "one-instruction function under {0, NOSPLIT, NOFRAME, both} x frame {0, 24}; the Lean acceptor acceptBPForm judges a refusal with "
+        "clobArch = measured || a destination operand is GP 5 || a declared output is GP 5 (after a control experiment without the NOFRAME "
+        "bit), an accepted function with measured || declared (a frame is demanded for MOVL BP,BP, not for MOVQ BP,BP which cannot modify "
+        "BP); the compiled function is executed too (`accept-bp-exec`). The shapes MEASURED to change BP (register-only ones) feed the "
+        "random generators (half of the author-named BP writes), shapes that only read BP are inserted as well; in the whole-Compile "
+        "streams the destinations are additionally re-derived from the bound OPERANDS through the form table (c15RebuiltOuts), so a "
+        "function whose Outputs lists were left stale/unbound is still judged. non-trivial = functions that write a view of BP")
     ctx.assumptions += [
-        "declared outputs cover the hardware writes of every instruction form (C04); avo's table has no form with an implicit BP operand "
-        "and no LEAVE/ENTER; a CALLed function preserves BP itself",
+        "declared outputs cover the hardware writes of every instruction form (C04) — for GP register 5 this is now the explicit "
+        "hypothesis `Covers` of C15_arch / execAll_preserves_bp (any lane, any width, any value: no exemption for self-moves) and is "
+        "MEASURED by the form sweep for every shape with an explicit BP operand; implicit writes of BP by instructions that do not name "
+        "it are C04's sweep (avo's table has no form with an implicit BP operand and no LEAVE/ENTER: formsweep:rows_with_implicit_bp "
+        "counts them); a CALLed function preserves BP itself",
+        "form sweep: 'measured to change BP' is a LOWER bound of 'can modify BP' (three set-ups; CMPXCHG with a failing comparison, BTR "
+        "of a clear bit … show no change): such shapes are judged through their declared outputs only; shapes not executed (DIV/IDIV: "
+        "#DE on frame-pointer values; indirect JMP; BT with a register bit offset into memory crashes) are judged statically; rows with "
+        "vector-indexed memory or branch operands have no general-purpose destination and are left out",
         "the function body is stack-balanced and writes no stack slot at or above the top of its frame (BodyOK; C16: locals lie inside the frame)",
         "0 <= LocalSize < 2^31 (explicit hypothesis of bp_saved / C15 / acceptBP_complete). Negative AllocLocal sizes are outside the "
         "property's quantifier (theorem bp_negative_frame_not_saved shows why). The upper bound is NOT granted by the quantifier: the "
@@ -125,5 +188,7 @@ def run(ctx):
         "one child process per grid case, controls that do not touch BP must report 'preserved'",
         "Gen.regs is produced by calling the compiled reg package's own API; Gen.compileOrder by evaluating the initialiser of pass.Compile "
         "(harness/gen_passfacts.go)",
+        "form sweep: the probe functions' set-up code, the trampoline and the child-process runner (harness/c15forms.go, c15gen.go); "
+        "controls on every run: a frameless leaf setting BP must be seen to change it, one that does not must be seen to preserve it",
         "the parse of the printed TEXT line (last comma-separated field of the line starting `TEXT ·name(SB)`) in harness/c15.go",
     ]
